@@ -86,4 +86,10 @@ def isSurrogate (c : Nat) : Bool := 0xD800 ≤ c && c < 0xE000
 def encodeBody (errors : String) (s : List Nat) : List Nat :=
   s.flatMap (fun c => if errors == "ignore" && isSurrogate c then [] else utf8 c)
 
+/-- the bytes hashed for (source, template class): the class name, a NUL, then the source (after the D-15d fix) -/
+def keyBytes (cls body : List Nat) : List Nat := cls ++ 0 :: body
+
+/-- the layout before the fix: the source directly followed by the class name -/
+def keyBytesOld (cls body : List Nat) : List Nat := body ++ cls
+
 end ChamVerif.Sys.Cache
